@@ -52,7 +52,9 @@ def c10_apply_tstep(v, spec):
     # applyAlongDimensions over TSTEP transforms the TFLAG integers as if
     # they were data (mean/prod/... of YYYYJJJ and HHMMSS) and leaves
     # SDATE/STIME at the input's start: start attributes != first time flag.
-    return (v['kind'] == 'incoherent-after:apply:sdate' and
+    return (v['kind'] in ('incoherent-after:apply:sdate',
+                          'incoherent-after:apply:sdate+tflag',
+                          'incoherent-after:apply:tflag') and
             'TSTEP' in v.get('meta', {}).get('apply', {}))
 
 
@@ -194,3 +196,36 @@ def c13_uamiv_long_steps(v, spec):
             any('dimension TSTEP' in p for p in pr) and
             all(('TSTEP' in p) or ('shape' in p) or ('TFLAG' in p)
                 for p in pr))
+
+
+def _crosses_year(spec):
+    from . import refcamx
+    st = refcamx.step_times(spec)
+    return st[0][0] // 1000 != st[-1][0] // 1000
+
+
+@pred('C13-read-year-crossing')
+def c13_year_crossing(v, spec):
+    # the record-based readers count time steps from YYJJJ/hour differences
+    # between the first and last stamp without calendar arithmetic: a file
+    # that runs across 31 December gets a wrong step count (temperature.Read
+    # ~15000 steps, uamiv.Read too few) while the memory-map reader counts
+    # records.
+    pr = v.get('problems') or []
+    return (v['kind'].startswith('readers-disagree:') and _crosses_year(spec)
+            and bool(pr) and any('dimension TSTEP' in p for p in pr) and
+            all(('TSTEP' in p) or ('shape' in p) or ('TFLAG' in p)
+                for p in pr))
+
+
+@pred('C20-file-no-headroom-saturation')
+def c20_file_saturation(v, spec):
+    # file-level face of C20-no-headroom-saturation: the reference PAKOUT
+    # encoder produced a field whose largest neighbour difference is above
+    # 99 % of 2**NEXP; reading it back is off by 1..1.6 steps from the
+    # ORIGINAL field (and identical to the reference decoder's values).
+    pr = v.get('problems') or []
+    return (v['kind'] == 'arl-file-law-broken' and bool(pr) and
+            all('read value off by' in p for p in pr) and
+            all(r < 1.6 for r in v.get('ratios', [9])) and
+            all(h > 0.99 for h in v.get('headrooms', [0])))
